@@ -109,7 +109,10 @@ Map(s, F(_)) == [i \in DOMAIN s |-> F(s[i])]
 Modes == {"none", "one", "late", "chain", "multi", "chain2"}
 HierModes == Modes \ {"chain2"}      \* chain2 (two extends levels that both modify the target) only matters for C08
 
-CN(d, i) == IF i = d THEN "Top" ELSE <<"Leaf", "Mid", "Mid2">>[i]
+(* pv.twin: the level-1 class is ALSO called Top; it lives in package A, everything else in package B, so the instance path
+   goes through two classes with the same short name (B.Top ... A.Top) *)
+CN(d, i) == IF i = d \/ (pv.twin /\ i = 1) THEN "Top" ELSE <<"Leaf", "Mid", "Mid2">>[i]
+ClsRef(i) == IF pv.twin /\ i = 1 THEN <<"A", "Top">> ELSE <<CN(pv.depth, i)>>
 IN1(i) == IF pv.same THEN "a" ELSE "a" \o ToString(i)     \* first instance declared by level i
 IN2(i) == IF pv.same THEN "b" ELSE "b" \o ToString(i)     \* second instance (pv.fan = 2)
 
@@ -172,8 +175,8 @@ PClash(i) == IF pv.clash THEN <<Cmp("p", <<"Integer">>, <<"parameter">>, <<>>, <
 SecondLevel(i) == IF pv.skew /\ i >= 3 THEN i - 2 ELSE i - 1
 MainComps(s, i) ==
     IF i = 1 THEN <<Cmp("x", <<XType>>, Pre(pv.xpre), XDims, DeclMods, DeclVal)>>
-    ELSE <<Cmp(IN1(i), <<CN(pv.depth, i - 1)>>, <<>>, <<>>, CompArgs(s, i), <<>>)>>
-         \o (IF pv.fan = 2 THEN <<Cmp(IN2(i), <<CN(pv.depth, SecondLevel(i))>>, <<>>, <<>>, <<>>, <<>>)>> ELSE <<>>)
+    ELSE <<Cmp(IN1(i), ClsRef(i - 1), <<>>, <<>>, CompArgs(s, i), <<>>)>>
+         \o (IF pv.fan = 2 THEN <<Cmp(IN2(i), ClsRef(SecondLevel(i)), <<>>, <<>>, <<>>, <<>>)>> ELSE <<>>)
 (* in the hierarchy family the level-1 class also has  Real w = p : a declaration value with a SIMPLE name, which becomes the
    flat equation  <path>.w = <path>.p *)
 RestComps(i) == IF i = 1 THEN <<Cmp("z", <<"Real">>, <<>>, <<>>, <<>>, <<>>)>>
@@ -187,7 +190,12 @@ MainIeqs(i) == IF pv.ieq THEN <<Eq(RefI(XPath(i), XIx), Lit(7))>> ELSE <<>>
 RestIeqs(i) == IF pv.ieq THEN (IF i = 1 THEN <<Eq(Ref(<<"z">>), Lit(0))>>
                                ELSE <<Eq(RefI(XPath(i), XIx), Ref(<<"p">>))>>) ELSE <<>>
 
-BaseRef(i, nm) == IF pv.wrap = 3 /\ i = pv.depth THEN <<"P1", nm>> ELSE <<nm>>
+(* wrap 3: Top in P2 extends P1.TopB.   wrap 4 (with split chain2 at the top level): an extends chain of length 2 ACROSS
+   packages - P3.Top extends P2.TopB, P2.TopB extends P1.TopB0, the far base P1.TopB0 declares the components, whose types are
+   local to P1 and SHADOWED by same-named decoy classes in P2 *)
+BaseRef(i, nm) == IF pv.wrap = 3 /\ i = pv.depth THEN <<"P1", nm>>
+                  ELSE IF pv.wrap = 4 /\ i = pv.depth THEN <<"P2", nm>> ELSE <<nm>>
+BaseRef0(i, nm) == IF pv.wrap = 4 /\ i = pv.depth THEN <<"P1", nm>> ELSE <<nm>>
 
 (* the classes of level i; `inner` = classes to nest inside the class that declares the instances *)
 LevelClasses(s, i, innerMain, innerBase) ==
@@ -210,7 +218,7 @@ LevelClasses(s, i, innerMain, innerBase) ==
                 Cl("model", n, <<Ext(BaseRef(i, n \o "B"), xa)>>, <<>>, RestComps(i) \o PClash(i), RestEqs(i), RestIeqs(i))>>
          [] md = "chain2" ->     \* the main components live in B0; B extends B0(inner modifiers); n extends B(outer modifiers)
               <<Cl("model", n \o "B0", <<>>, innerMain, <<PComp(i)>> \o MainComps(s, i), MainEqs(i), MainIeqs(i)),
-                Cl("model", n \o "B", <<Ext(<<n \o "B0">>, ExtBArgs(s, i))>>, <<>>, <<>>, <<>>, <<>>),
+                Cl("model", n \o "B", <<Ext(BaseRef0(i, n \o "B0"), ExtBArgs(s, i))>>, <<>>, <<>>, <<>>, <<>>),
                 Cl("model", n, <<Ext(BaseRef(i, n \o "B"), xa)>>, <<>>, RestComps(i) \o PClash(i), RestEqs(i), RestIeqs(i))>>
          [] md = "multi" ->
               <<Cl("model", n \o "BA", <<>>, <<>>, <<PComp(i)>>, <<>>, <<>>),
@@ -236,13 +244,24 @@ Lib(s) ==
     LET all  == AllClasses(s)
         topc == all[Len(all)]
         rest == SubSeq(all, 1, Len(all) - 1)
-    IN CASE pv.wrap = 0 -> all
+        n == Len(all)
+        decoys == (IF pv.depth >= 2 THEN <<Cl("model", CN(pv.depth, pv.depth - 1), <<>>, <<>>,
+                                              <<Cmp("wrong", <<"Boolean">>, <<>>, <<>>, <<>>, <<>>)>>, <<>>, <<>>)>> ELSE <<>>)
+                  \o (IF IsAliasX THEN <<Alias(XType, <<"Integer">>, <<>>)>> ELSE <<>>)
+    IN IF pv.twin THEN <<Cl("package", "A", <<>>, LevelClasses(s, 1, <<>>, <<>>), <<>>, <<>>, <<>>),
+                         Cl("package", "B", <<>>, LevelsFrom(s, 2), <<>>, <<>>, <<>>)>>
+       ELSE
+       CASE pv.wrap = 0 -> all
+         [] pv.wrap = 4 -> <<Cl("package", "P1", <<>>, SubSeq(all, 1, n - 2), <<>>, <<>>, <<>>),
+                             Cl("package", "P2", <<>>, decoys \o <<all[n - 1]>>, <<>>, <<>>, <<>>),
+                             Cl("package", "P3", <<>>, <<topc>>, <<>>, <<>>, <<>>)>>
          [] pv.wrap = 1 -> <<Cl("package", "P", <<>>, all, <<>>, <<>>, <<>>)>>
          [] pv.wrap = 2 -> <<Cl("package", "P", <<>>, rest \o <<Cl("package", "Q", <<>>, <<topc>>, <<>>, <<>>, <<>>)>>,
                                 <<>>, <<>>, <<>>)>>
          [] pv.wrap = 3 -> <<Cl("package", "P1", <<>>, rest, <<>>, <<>>, <<>>),
                              Cl("package", "P2", <<>>, <<topc>>, <<>>, <<>>, <<>>)>>
-TopPath == CASE pv.wrap = 0 -> <<"Top">> [] pv.wrap = 1 -> <<"P", "Top">>
+TopPath == IF pv.twin THEN <<"B", "Top">> ELSE
+           CASE pv.wrap = 0 -> <<"Top">> [] pv.wrap = 4 -> <<"P3", "Top">> [] pv.wrap = 1 -> <<"P", "Top">>
              [] pv.wrap = 2 -> <<"P", "Q", "Top">> [] pv.wrap = 3 -> <<"P2", "Top">>
 
 HasSpellable == \E j \in DOMAIN pv.mods : pv.mods[j].k \in {"ext", "extb", "comp"}
@@ -257,7 +276,9 @@ SiteOK(m) ==
       [] m.k = "comp" -> m.i \in 2..pv.depth
       [] OTHER -> FALSE
 WellFormed ==
-    /\ pv.depth \in 1..4 /\ pv.fan \in 1..2 /\ pv.wrap \in 0..3 /\ pv.xdims \in 0..2
+    /\ pv.depth \in 1..4 /\ pv.fan \in 1..2 /\ pv.wrap \in 0..4 /\ pv.xdims \in 0..2
+    /\ (pv.wrap = 4 => pv.split[pv.depth] = "chain2" /\ pv.nest = "lib")
+    /\ (pv.twin => pv.depth >= 3 /\ pv.wrap = 0 /\ pv.nest = "lib" /\ ~IsAliasX /\ ~pv.shadow /\ \A i \in 1..pv.depth : pv.split[i] = "none")
     /\ Len(pv.split) = pv.depth /\ \A i \in 1..pv.depth : pv.split[i] \in Modes
     /\ pv.nest \in {"lib", "user", "userbase"}
     /\ (pv.nest # "lib" => pv.depth >= 2)
@@ -631,7 +652,7 @@ ModSplits(d) == PlainSplits(d) \cup {[i \in 1..d |-> IF i = k THEN "chain2" ELSE
 
 PV(d, f, sm, w, n, s, xt, xd, xp, yp, iq, at, ms, cl, sh) ==
     [depth |-> d, fan |-> f, same |-> sm, wrap |-> w, nest |-> n, split |-> s, xtype |-> xt, xdims |-> xd,
-     xpre |-> xp, ypre |-> yp, ieq |-> iq, attr |-> at, mods |-> ms, clash |-> cl, shadow |-> sh, skew |-> FALSE]
+     xpre |-> xp, ypre |-> yp, ieq |-> iq, attr |-> at, mods |-> ms, clash |-> cl, shadow |-> sh, skew |-> FALSE, twin |-> FALSE]
 (* dedicated shape: depth 3 / 4, two instances per level, names repeated, second instance two levels down *)
 SkewPV(d, at, ms) == [PV(d, 2, TRUE, 0, "lib", [i \in 1..d |-> "none"], "Real", 0, "", "", at = "", at, ms, FALSE, FALSE)
                       EXCEPT !.skew = TRUE]
@@ -653,6 +674,11 @@ HierFamily ==
             w \in (IF Wide THEN {0, 1} ELSE {0}), n \in {"lib", "user", "userbase"},
             s \in (IF Wide \/ d < 3 THEN SplitSeqs(d) ELSE {}), c \in {<<TRUE, FALSE>>, <<FALSE, TRUE>>, <<TRUE, TRUE>>}}
         \cup (IF d = 1 THEN {SkewPV(3, "", <<>>), SkewPV(4, "", <<>>)} ELSE {})
+        \* extends chain of length 2 across packages, far base uses package-local (shadowed) model / alias types
+        \cup {PV(d, 1, FALSE, 4, "lib", [i \in 1..d |-> IF i = d THEN "chain2" ELSE "none"], xt, 0, "", "", TRUE, "", <<>>, FALSE, FALSE) :
+                xt \in {"Real", "aR", "aaR"}}
+        \cup (IF d = 3 THEN {[PV(3, 1, FALSE, 0, "lib", [i \in 1..3 |-> "none"], "Real", 0, "", "", TRUE, "", <<>>, FALSE, FALSE)
+                              EXCEPT !.twin = TRUE]} ELSE {})
         \cup {PV(d, 1, FALSE, w, "lib", s, l[1], l[2], l[3], l[4], l[5], "", <<>>, FALSE, FALSE) :
             w \in (IF Wide THEN {0, 1} ELSE {0}),
             s \in (IF Wide \/ d < 3 THEN PlainSplits(d) ELSE {[i \in 1..d |-> "none"]}), l \in LeafShapes}
@@ -674,9 +700,16 @@ ModSeqs(S, kinds, maxn) ==      \* subsets of at most maxn sites with an express
 SkewMods == {SkewPV(4, at, ms) : at \in {"start", "value"},
                                    ms \in {<<[k |-> "decl", i |-> 1, e |-> "ref"]>>, <<[k |-> "comp", i |-> 2, e |-> "ref"]>>,
                                            <<[k |-> "comp", i |-> 3, e |-> "ref"], [k |-> "decl", i |-> 1, e |-> "ref"]>>}}
+(* two classes with the same short name (B.Top, A.Top) on one instance path, the outer one's modification crosses the inner one *)
+TwinMods == {[PV(3, 1, FALSE, 0, "lib", [i \in 1..3 |-> "none"], "Real", 0, "", "", FALSE, at, ms, FALSE, FALSE) EXCEPT !.twin = TRUE] :
+                at \in {"start", "value"},
+                ms \in {<<[k |-> "comp", i |-> 3, e |-> "ref"], [k |-> "comp", i |-> 2, e |-> "lit"]>>,
+                        <<[k |-> "comp", i |-> 3, e |-> "lit"], [k |-> "comp", i |-> 2, e |-> "ref"]>>,
+                        <<[k |-> "comp", i |-> 3, e |-> "ref"], [k |-> "comp", i |-> 2, e |-> "ref"], [k |-> "decl", i |-> 1, e |-> "ref"]>>,
+                        <<[k |-> "comp", i |-> 3, e |-> "ref"]>>}}
 ModsFamily ==
     IF Family # "mods" THEN {} ELSE
-    SkewMods \cup
+    SkewMods \cup TwinMods \cup
     {v \in UNION { UNION {
             {PV(d, 1, sm, 0, "lib", s, xt, 0, xp, "", FALSE, at, ms, FALSE, FALSE) :
                 sm \in (IF d >= 3 THEN BOOLEAN ELSE {FALSE}), xp \in {"", "parameter"},
@@ -709,14 +742,14 @@ CTags(s) ==
           THEN {"outer-attr-ref"} ELSE {})
     \cup (IF pv.xtype = "aaR" /\ \E j \in DOMAIN pv.mods : pv.mods[j].k # "type" /\ pv.attr # "value" THEN {"alias2-attr"} ELSE {})
     \cup (IF pv.same /\ pv.depth >= 4 /\ \E j \in DOMAIN pv.mods : pv.mods[j].e = "ref" THEN {"same-names-ref"} ELSE {})
-    \cup (IF pv.wrap = 3 THEN {"base-in-other-package"} ELSE {})
+    \cup (IF pv.wrap \in {3, 4} THEN {"base-in-other-package"} ELSE {})
 Tags ==
     {"depth" \o ToString(pv.depth), "fan" \o ToString(pv.fan), "wrap" \o ToString(pv.wrap), "nest-" \o pv.nest,
      "xtype-" \o pv.xtype, "xdims" \o ToString(pv.xdims)}
     \cup {"split" \o ToString(i) \o "-" \o pv.split[i] : i \in {j \in 1..pv.depth : pv.split[j] # "none"}}
     \cup (IF pv.same THEN {"same"} ELSE {})
     \cup (IF pv.xpre # "" THEN {"xpre-" \o pv.xpre} ELSE {}) \cup (IF pv.ypre # "" THEN {"ypre-" \o pv.ypre} ELSE {})
-    \cup (IF pv.ieq THEN {"ieq"} ELSE {}) \cup (IF pv.clash THEN {"clash"} ELSE {}) \cup (IF pv.shadow THEN {"shadow"} ELSE {}) \cup (IF pv.skew THEN {"skew"} ELSE {})
+    \cup (IF pv.ieq THEN {"ieq"} ELSE {}) \cup (IF pv.clash THEN {"clash"} ELSE {}) \cup (IF pv.shadow THEN {"shadow"} ELSE {}) \cup (IF pv.skew THEN {"skew"} ELSE {}) \cup (IF pv.twin THEN {"twin"} ELSE {})
     \cup (IF pv.attr # "" THEN {"attr-" \o pv.attr} ELSE {})
     \cup {"site-" \o pv.mods[j].k \o ToString(pv.mods[j].i) \o "-" \o pv.mods[j].e : j \in DOMAIN pv.mods}
 
@@ -744,7 +777,7 @@ RECURSIVE SumSeq(_)
 SumSeq(q) == IF q = <<>> THEN 0 ELSE Head(q) + SumSeq(Tail(q))
 Hash(v) == v.depth * 7 + v.fan * 3 + v.wrap * 5 + v.xdims * 11 + StrIdx(v.xtype) * 13 + StrIdx(v.xpre) * 17
            + StrIdx(v.ypre) * 19 + (IF v.same THEN 23 ELSE 0) + (IF v.ieq THEN 29 ELSE 0) + StrIdx(v.nest) * 31
-           + StrIdx(v.attr) * 37 + (IF v.clash THEN 41 ELSE 0) + (IF v.shadow THEN 43 ELSE 0) + (IF v.skew THEN 47 ELSE 0)
+           + StrIdx(v.attr) * 37 + (IF v.clash THEN 41 ELSE 0) + (IF v.shadow THEN 43 ELSE 0) + (IF v.skew THEN 47 ELSE 0) + (IF v.twin THEN 53 ELSE 0)
            + SumSeq([i \in DOMAIN v.split |-> StrIdx(v.split[i]) * (i + 40)])
            + SumSeq([j \in DOMAIN v.mods |-> (Rank(v.mods[j]) * 2 + StrIdx(v.mods[j].e)) * (j + 52)])
 
